@@ -126,6 +126,10 @@ def stepLine (s : State) (line : String) : State × String :=
       | .ok s' => (s', "ok " ++ showState s')
       | .error e => (s, errName e ++ " " ++ showState s)
     | _, _, _, _, _ => (s, "bad-op")
+  | ["genesis"] =>
+    -- the migrate module's state exported and imported again (ExportGenesis / InitGenesis as read from the code)
+    let s' := genesisRoundTrip cfg s
+    (s', "ok " ++ showState s')
   | ["key", a] =>
     match nat? a with
     | some a => ({ s with hasKey := ins s.hasKey a }, "ok")
